@@ -8,7 +8,8 @@ IMPORTS = "ConcModel ConcObs"
 FUNCS = [
     "torchdata/nodes/map.py:_sort_worker", "torchdata/nodes/map.py:_ParallelMapperIter", "torchdata/nodes/map.py:_ParallelMapperImpl",
     "torchdata/nodes/map.py:ParallelMapper", "torchdata/nodes/map.py:_SingleThreadedMapper", "torchdata/nodes/prefetch.py:Prefetcher",
-    "torchdata/nodes/_populate_queue.py:_populate_queue", "torchdata/nodes/_apply_udf.py:_apply_udf",
+    "torchdata/nodes/_populate_queue.py:_populate_queue", "torchdata/nodes/pin_memory.py:_pin_memory_loop", "torchdata/nodes/pin_memory.py:PinMemory",
+    "torchdata/nodes/_apply_udf.py:_apply_udf",
     "torchdata/nodes/snapshot_store.py:QueueSnapshotStore", "torchdata/nodes/snapshot_store.py:MonotonicIndex",
     "torchdata/nodes/base_node.py:BaseNode",
 ]
@@ -36,6 +37,10 @@ def gen_case(rng, *, kinds=("pf", "pm"), errors=False, loads=True, join_timeouts
              no_join_timeout=not join_timeouts, drain=drain)
     if kind == "pf":
         c["pf"] = rng.choice([1, 2, 3])
+        if rng.random() < 0.25:
+            # PinMemory: the same _SingleThreadedMapper protocol with _pin_memory_loop as the read thread, prefetch_factor 1
+            # (no accelerator here: pin_memory() of plain ints is the identity, the device query is stubbed by the harness)
+            c["pin"], c["pf"] = True, 1
     else:
         c["nw"] = rng.choice([1, 2, 2, 3])
         c["in_order"] = True if not unordered else rng.random() < 0.75
@@ -258,6 +263,7 @@ def distribution(cases):
         d["bias"][c["bias"]] = d["bias"].get(c["bias"], 0) + 1
         d["src_err"] += c.get("src_err") is not None
         d["udf_err"] += bool(c.get("bad"))
+        d["pin_memory"] = d.get("pin_memory", 0) + bool(c.get("pin"))
         d["udf_none"] = d.get("udf_none", 0) + bool(c.get("nones"))
         d["loads"] += sum(1 for o in c["script"] if isinstance(o, list) and o[1] is not None)
         d["resets"] += sum(1 for o in c["script"] if isinstance(o, list)) - 1
